@@ -198,7 +198,7 @@ def _lexparse():
     return importlib.import_module('lexparse')
 
 
-def _lexparse_check(prop, fn, tier, seed, rule, extra=None):
+def _lexparse_check(prop, fn, tier, seed, rule, extra=None, session_clauses=None, session_what=''):
     rep = Report(prop, tier, seed)
     lp = _lexparse()
     open_devs = [d for d in engine.open_deviations() if d in lp.ALL_DEVIATIONS] + list(lp.IMPL_DETAIL)
@@ -243,7 +243,42 @@ def _lexparse_check(prop, fn, tier, seed, rule, extra=None):
                                                                          str(m.get('expected'))[:200], str(m.get('observed'))[:200]), m)
     if other:
         rep.notes['differences_outside_this_property'] = other
+    if session_clauses:
+        # the same question asked of a parser with a history (earlier calls that failed or were abandoned, a parse cache)
+        _session_component(rep, seed + 31, tier == 'quick', session_clauses, session_what)
     return rep.finish()
+
+
+def _session_component(rep, seed, quick, clauses, what, kinds=(None, 'dict')):
+    """Recorded sessions of long-lived parsers (plain and caching; parse / eval / list_names full and abandoned, the same text
+    again, near-duplicates, faulty texts) validated by TLC against SQSession; a rejection is a violation of the calling
+    check's property only if the differing part of the outcome is one of `clauses`."""
+    from . import session
+    for kind in kinds:
+        sessions, verdicts, results = session.validate_sessions(seed, 100 if quick else 1200, 6, cache_kind=kind, observe_keys=False)
+        for res in results:
+            rep.add_tlc(res, 'TraceSession cache=%s' % kind)
+            if res.rc != 0:
+                rep.machinery.append('TraceSession failed: ' + res.out[-800:])
+        for sess, vd in verdicts:
+            rep.evaluations += 1
+            if vd is None:
+                rep.machinery.append('TraceSession dropped a session')
+                continue
+            if vd['v'] == 'accepted':
+                rep.traces += 1
+                continue
+            i = vd['at'] - 1
+            clause = vd['clause']
+            obs = sess[i]['obs']
+            if clause in ('outcome.kind', 'outcome.rejected') and obs.get('cls') not in (None, 'ParserError', 'ParserOpsLimitError'):
+                clause = 'outcome.class'
+            if clause in clauses:
+                rep.violation('session (cache=%s): %s at call %d (%s): %r' % (kind, what, vd['at'], clause, [(c['op'], c['text']) for c in sess[:i + 1]]),
+                              {'cache': kind, 'calls': [(c['op'], c['text'], c['k']) for c in sess[:i + 1]], 'clause': clause, 'observed': obs})
+            else:
+                d = rep.notes.setdefault('session_differences_outside_this_property', {})
+                d[clause] = d.get(clause, 0) + 1
 
 
 RELEVANT_CLAUSES = {
@@ -262,7 +297,9 @@ def check_C06(tier, seed):
                            'reading (SQGrammarValid: Sound/Complete/Unique); every string rendered to text and parsed by the real '
                            'SqParser (accept/reject, tree, offending token); random sentences, one-token mutations and the test-suite '
                            'sources validated by TLC (TraceParse)',
-                           extra=[lambda lp, tier, seed, devs: lp.check_C06_spec(tier, seed, devs)] if tier != 'quick' else None)
+                           extra=[lambda lp, tier, seed, devs: lp.check_C06_spec(tier, seed, devs)] if tier != 'quick' else None,
+                           session_clauses={'outcome.accepted', 'outcome.rejected', 'outcome.tree'},
+                           session_what='acceptance / tree differs from the grammar on a parser with a history')
 
 
 def check_C15(tier, seed):
@@ -270,14 +307,19 @@ def check_C15(tier, seed):
                            'TLC: token strings with layout variants (MC_Parse suite C15) + layout rewrites (spaces/tabs, comments, line '
                            'breaks in brackets, ; vs newline vs CRLF, blank statements, trailing commas, redundant parentheses, the '
                            'three call spellings) of random trees: Parse(Lex(Unparse(t, layout))) = t checked by TLC per record and '
-                           'against the real parser')
+                           'against the real parser; multi-line / bracketed texts on parsers with a history (SQSession)',
+                           session_clauses={'outcome.accepted', 'outcome.rejected', 'outcome.tree'},
+                           session_what='a layout-only difference changed acceptance / tree on a parser with a history')
 
 
 def check_C20(tier, seed):
     return _lexparse_check('C20', 'check_C20', tier, seed,
                            'TLC: token strings with separators and brackets before a stray token (MC_Parse suite C20); valid programs '
                            'made invalid by a stray token at every position with mixtures of newline/CRLF/; and multi-line literals, '
-                           'truncations: message must name the token and its physical line (ErrMsg of SQGrammar.tla)')
+                           'truncations: message must name the token and its physical line (ErrMsg of SQGrammar.tla); the same on '
+                           'long-lived and caching parsers (recorded sessions validated against SQSession)',
+                           session_clauses={'outcome.token', 'outcome.line'},
+                           session_what='syntax-error message names another token / line on a parser with a history')
 
 
 def check_C14(tier, seed):
@@ -382,27 +424,8 @@ def check_C16(tier, seed):
     engine.judge_cases(rep, cases, devs, what='failing program')
     _base_exceptions(rep, cases)
     # the same faulty text submitted repeatedly to long-lived parsers (plain and caching): SQSession says it fails every time
-    from . import session
-    for kind in (None, 'dict'):
-        sessions, verdicts, results = session.validate_sessions(seed + 77, 100 if quick else 1200, 6, cache_kind=kind, observe_keys=False)
-        for res in results:
-            rep.add_tlc(res, 'TraceSession cache=%s (repeated faulty texts)' % kind)
-            if res.rc != 0:
-                rep.machinery.append('TraceSession failed: ' + res.out[-800:])
-        for sess, vd in verdicts:
-            rep.evaluations += 1
-            if vd is None:
-                rep.machinery.append('TraceSession dropped a session')
-            elif vd['v'] == 'accepted':
-                rep.traces += 1
-            elif vd['clause'] == 'outcome' and 'names' not in sess[vd['at'] - 1]['obs'] and (
-                    sess[vd['at'] - 1]['obs'].get('ok') or sess[vd['at'] - 1]['obs'].get('cls') not in ('ParserError', 'ParserOpsLimitError')):
-                i = vd['at'] - 1
-                rep.violation('session (cache=%s): a text the specification rejects with ParserError was accepted / failed otherwise at call %d: %r'
-                              % (kind, vd['at'], [(c['op'], c['text']) for c in sess[:i + 1]]),
-                              {'cache': kind, 'calls': [(c['op'], c['text'], c['k']) for c in sess[:i + 1]], 'observed': sess[i]['obs']})
-            else:
-                rep.notes['session_differences_outside_this_property'] = rep.notes.get('session_differences_outside_this_property', 0) + 1
+    _session_component(rep, seed + 77, quick, {'outcome.accepted', 'outcome.class'},
+                       'a text the specification rejects with ParserError was accepted / failed with another class')
     # syntax layer
     lp = _lexparse()
     open_devs = [d for d in devs if d in lp.ALL_DEVIATIONS] + list(lp.IMPL_DETAIL)
